@@ -4,6 +4,7 @@ import Adsb.Velocity
 import Adsb.TrackerF
 import Adsb.Display
 import Adsb.Ui
+import Adsb.App
 /-! Line-protocol driver: one operation per input line, one canonical line of output. -/
 open Adsb
 
@@ -110,9 +111,29 @@ def uRun : UEnv → UI → List String → String
     | some (_, .err e) => s!"ERR {e.name}"
     | some (_, .panic p) => s!"PANIC {p}"
 
+/-- decimal text like `-77.25` or `39` as a Float -/
+def parseFloat (s : String) : Option Float :=
+  let neg := s.startsWith "-"
+  let t := if neg then (s.drop 1).toString else s
+  match t.splitOn "." with
+  | [a] => a.toNat?.map (fun n => let x := Float.ofNat n; if neg then -x else x)
+  | [a, b] => match a.toNat?, b.toNat? with
+    | some x, some y =>
+      let v := Float.ofNat x + Float.ofScientific y true b.length
+      some (if neg then -v else v)
+    | _, _ => none
+  | _ => none
+
 def runOp (line : String) : String :=
   match line.trimAscii.toString.splitOn " " |>.filter (· ≠ "") with
   | "U" :: toks => uRun {} {} toks
+  | ["M", sc, zoom, la0, lo0, la, lo] =>
+      -- `to_xy` of (la, lo) for the view centre (la0, lo0) after `zoom` zoom-out steps from the start scale `sc`
+      match parseFloat sc, zoom.toInt?, parseFloat la0, parseFloat lo0, parseFloat la, parseFloat lo with
+      | some sc, some z, some a0, some o0, some a, some o =>
+        let r := toXY floatArith mercNF (2.0 * piApp) (viewScale sc z * 500000.0) a0 o0 a o
+        s!"XY {r.1} {r.2}"
+      | _, _, _, _, _, _ => "BADOP"
   | ["F", h] => match parseBuf h with
       | some B => showRes Frame.show (decode B)
       | none => "BADOP"
@@ -151,30 +172,18 @@ structure DState where
   rx : Float × Float := (0.0, 0.0)
   range : Float := 500.0
   now : Nat := 0
-
-/-- decimal text like `-77.25` or `39` as a Float -/
-def parseFloat (s : String) : Option Float :=
-  let neg := s.startsWith "-"
-  let t := if neg then (s.drop 1).toString else s
-  match t.splitOn "." with
-  | [a] => a.toNat?.map (fun n => let x := Float.ofNat n; if neg then -x else x)
-  | [a, b] => match a.toNat?, b.toNat? with
-    | some x, some y =>
-      let v := Float.ofNat x + Float.ofScientific y true b.length
-      some (if neg then -v else v)
-    | _, _ => none
-  | _ => none
+  stats : Stats := {}
 
 def trackOp (st : DState) (args : List String) : DState × String :=
   match args with
   | ["reset", la, lo, r] => match parseFloat la, parseFloat lo, parseFloat r with
-    | some a, some b, some c => ({ planes := [], rx := (a, b), range := c, now := st.now }, "OK")
+    | some a, some b, some c => ({ planes := [], rx := (a, b), range := c, now := st.now, stats := {} }, "OK")
     | _, _, _ => (st, "BADOP")
   | ["act", h] => match parseBuf h with
     | some B => match decode B with
       | .ok f =>
         let (s', added) := action (geoF st.rx st.range) true st.now st.planes f.df
-        ({ st with planes := s' }, s!"ADDED {if added then "yes" else "no"} {showMap s'}")
+        ({ st with planes := s', stats := st.stats.update s'.length added }, s!"ADDED {if added then "yes" else "no"} {showMap s'}")
       | .err e => (st, s!"ERR {e.name}")
       | .panic p => (st, s!"PANIC {p}")
     | none => (st, "BADOP")
@@ -185,6 +194,7 @@ def trackOp (st : DState) (args : List String) : DState × String :=
     | some t => let s' := prune t st.now st.planes; ({ st with planes := s' }, showMap s')
     | none => (st, "BADOP")
   | ["dump"] => (st, showMap st.planes)
+  | ["stats"] => (st, s!"STATS most={st.stats.most} total={st.stats.total} n={titleCount st.planes}")
   | _ => (st, "BADOP")
 
 partial def loop (h : IO.FS.Stream) (out : IO.FS.Stream) (st : DState) : IO Unit := do
